@@ -39,10 +39,61 @@ ROWS = {
     'de.stnr.to_country_number': ('de.stnr', 'to_country_number', 'de.stnr', ('de.stnr', 'to_regional_number'), lambda v: len(v) in (10, 11)),
     'mac.to_eui48': ('mac', 'to_eui48', 'mac', None, None),
     'meid.to_pseudo_esn': ('meid', 'to_pseudo_esn', None, None, None),
+    # the two representations of a MEID (14 hexadecimal / 18 decimal digits, check digit kept when present)
+    'meid.format_hex': ('meid', 'format', 'meid', None, None),       # format(x, format='hex')
+    'meid.format_dec': ('meid', 'format', 'meid', None, None),       # format(x, format='dec')
+    'meid.compact_keep': ('meid', 'compact', 'meid', None, None),    # compact(x, strip_check_digit=False)
     'be.iban.to_bic': ('be.iban', 'to_bic', 'bic', None, None),
     'cz.bankaccount.to_bic': ('cz.bankaccount', 'to_bic', 'bic', None, None),
 }
 NONE = {'k': 'none', 't': '', 'v': [], 'mro': []}
+MEID_KW = {'meid.format_hex': {'format': 'hex', 'separator': ''}, 'meid.format_dec': {'format': 'dec', 'separator': ''},
+           'meid.compact_keep': {'strip_check_digit': False}}
+
+
+def _luhn_cd(s, base):
+    """input construction only: the Luhn check digit of s in the given base (never used to judge)"""
+    alphabet = '0123456789ABCDEF'[:base]
+    for c in alphabet:
+        t = 0
+        for i, ch in enumerate(reversed(s + c)):
+            d = alphabet.index(ch)
+            if i % 2:
+                d = sum(divmod(d * 2, base))
+            t += d
+        if t % base == 0:
+            return c
+
+
+def meid_worker(row, src, vals, rnd, emit):
+    """sources in both representations, with and without check digit, for every 14-digit body -- and for its all-decimal
+    look-alike (a hexadecimal MEID made of decimal digits only is an IMEI and takes the decimal check digit)"""
+    kw = MEID_KW[row]
+    bodies = []
+    for v in vals:
+        if len(v) != 14:
+            continue
+        bodies.append(v)
+        bodies.append(''.join(ch if ch.isdigit() else str((ord(ch) - 55) % 10) for ch in v))
+    for v in dict.fromkeys(bodies):
+        dec = '%010d%08d' % (int(v[:8], 16), int(v[8:], 16))
+        hexcd = _luhn_cd(v, 10 if v.isdigit() else 16)
+        for withcd, group in (('1', [v + hexcd, dec + _luhn_cd(dec, 10)]), ('0', [v, dec])):
+            evs = []
+            for x0 in group:
+                for x in (x0, x0[:5] + ' ' + x0[5:10] + '-' + x0[10:]):
+                    if lib.call(src.validate, x)['k'] != 'ret':
+                        emit.count('meid_source_not_accepted')
+                        continue
+                    w = lib.call(getattr(src, ROWS[row][1]), x, **kw)
+                    wtxt = lib.from_cps(w['v']) if w['k'] == 'ret' and w['t'] == 'str' else None
+                    dv = lib.call(src.validate, wtxt, strip_check_digit=False) if wtxt is not None else NONE
+                    evs.append({'row': row, 'v': lib.cps(v), 'pres': lib.cps(x), 'w': sl(w), 'dv': sl(dv), 'hasinv': False, 'inv': sl(NONE),
+                                'invwant': [], 'opt': lib.cps(withcd)})
+            if evs:
+                emit.trace(evs, {'m': 'meid', 'w': v, 'how': '%s %s check digit %s' % (row, json.dumps(kw), withcd), 'site': '',
+                                 'results': [lib.from_cps(e['w']['v']) if e['w']['k'] == 'ret' else e['w']['k'] for e in evs][:4]})
+                emit.count('conversions', len(evs))
 
 
 def sl(r):
@@ -87,6 +138,8 @@ def worker(unit, emit):
     if flt:
         vals = [v for v in vals if flt(v)]
     emit.count('rows')
+    if row in MEID_KW:
+        return meid_worker(row, src, vals, rnd, emit)
     for v in vals:
         opts = [{}]
         optcp = []
